@@ -51,6 +51,7 @@ class Actor:
         self.last = None
         self.queries = []
         self.final = None
+        self.max_depth = 0
 
     @property
     def done(self):
@@ -72,6 +73,7 @@ class Actor:
                     r = self.rf(op[1], self.last if isinstance(self.last, list) else [0.0] * len(self.domain))
                     self.rewards_given.append(tag(r))
                     self.algo.receive_reward(self.lab(op[1]), r)
+                    self.max_depth = max(self.max_depth, _tree_depth(self.algo))
                 elif op[0] == "query":
                     self.queries.append(_pt(self.algo.get_last_point()))
                 else:
@@ -98,6 +100,30 @@ class Actor:
         if with_queries:
             out["queries"] = self.queries
         return out
+
+
+def _tree_depth(algo):
+    """Deepest level of any partition the algorithm (or its current base learners) holds."""
+    d = 0
+    seen = 0
+    stack = [algo]
+    while stack and seen < 200:
+        a = stack.pop()
+        seen += 1
+        part = getattr(a, "partition", None)
+        if part is not None and hasattr(part, "get_depth") and not isinstance(part, type):
+            try:
+                d = max(d, int(part.get_depth()))
+            except Exception:
+                pass
+        for name in ("algorithm", "curr_algo"):
+            sub = getattr(a, name, None)
+            if sub is not None:
+                stack.append(sub)
+        subs = getattr(a, "V_algo", None)
+        if isinstance(subs, list):
+            stack.extend(subs)
+    return d
 
 
 def _pt(p):
@@ -398,12 +424,31 @@ def run_c16(sc):
     mag = max(max(abs(v) for iv in A["domain"] for v in iv), max(abs(v) for iv in B["domain"] for v in iv),
               max(abs(s) * (hi - lo) for lo, hi in A["domain"]))
     exact = sc.get("cls") == "exact"
+    if exact and any(x != 0 for x in b):
+        # Bit budget of a translation (DESIGN 5.16), decided for the whole run from the depth of the trees it grew:
+        # the box is dyadic (lo = k/4, width 2^j) and the partition splits at midpoints, so every cell bound at depth
+        # <= D is a multiple of 2^-(D + 2 - min(j, 0)) and every centre of one more bit.  If those fractional bits plus
+        # the integer bits of the largest coordinate of either world fit the mantissa with two bits to spare, every
+        # midpoint is computed without rounding in both worlds and the mapped logs must agree bit for bit.  Otherwise
+        # two correct runs may round differently, and the run is compared with tolerance (or, for the algorithms that
+        # compare coordinates, not judged).  VROOM's uniform samples are never inside the budget.
+        D = max(a1.max_depth, b1.max_depth) + 1
+        jmin = min([0] + [int(math.floor(math.log2(hi - lo))) for lo, hi in A["domain"]])
+        q = D + 2 - jmin + 1
+        big = max(abs(v) for dom in (A["domain"], B["domain"]) for iv in dom for v in iv)
+        m = max(math.frexp(max(big, 1.0))[1], 1)
+        in_budget = A["algo"] != "VROOM" and (q + m + 2 <= 53)
+        if not in_budget:
+            exact = False
+            stats["exact-twins-outside-bit-budget"] += 1
+            if sc.get("coord_sensitive"):
+                stats["not-judged(coordinate-sensitive-outside-budget)"] += 1
+                return _result(sc, rounds, dg, seam, None, stats)
     seq = list(zip(oa["points"], ob["points"]))
     if isinstance(oa["final"], list) and isinstance(ob["final"], list):
         seq.append((oa["final"], ob["final"]))
     elif oa["final"] != ob["final"]:
         return _result(sc, rounds, dg, seam, ("C16", clause, "recommendations differ in kind: %r vs %r" % (oa["final"], ob["final"]), rounds))
-    fell = False
     for k, (p, q) in enumerate(seq):
         if not (isinstance(p, list) and isinstance(q, list)) or len(p) != len(q):
             if p != q:
@@ -411,26 +456,15 @@ def run_c16(sc):
             continue
         for x, y, bb in zip(p, q, b):
             want = s * x + bb
-            if exact and not fell:
-                ok_map = _exact_add(s * x, bb) if bb else True
-                if not ok_map:
-                    fell = True   # outside the bit budget: judge this run by tolerance from now on
-                    if sc.get("coord_sensitive"):
-                        # Zooming / default-delta DOO compare coordinates: a rounding difference may legitimately
-                        # flip an exact tie, so such runs are judged in the exact class only, up to here
-                        stats["exact-twins-stopped-at-bit-budget"] += 1
-                        return _result(sc, rounds, dg, seam, None, stats)
-                elif y != want:
+            if exact:
+                if y != want:
                     return _result(sc, rounds, dg, seam, ("C16", clause, "event %d: image of %s under x -> %r*x + %r is %s, the run on the image domain gave %s" % (
                         k + 1, fhex(x), s, bb, fhex(want), fhex(y)), k + 1))
-                else:
-                    continue
+                continue
             if abs(y - want) > 1e-9 * mag:
                 return _result(sc, rounds, dg, seam, ("C16", clause, "event %d: image of %s is %s, the run on the image domain gave %s (tolerance 1e-9*%g)" % (
                     k + 1, fhex(x), fhex(want), fhex(y), mag), k + 1))
-    stats["exact-twins" if exact and not fell else "tolerance-twins"] += 1
-    if fell:
-        stats["exact-twins-fallen-to-tolerance"] += 1
+    stats["exact-twins" if exact else "tolerance-twins"] += 1
     return _result(sc, rounds, dg, seam, None, stats)
 
 
